@@ -40,6 +40,8 @@ MUTATORS = {"push", "extend", "extend_from_slice", "insert", "append", "push_str
             "copy_from_slice", "clone_from_slice", "fill", "zeroize", "take", "replace", "retain_mut",
             "split_off", "sort_unstable_by", "sort_unstable_by_key"}
 
+FROM_FN_LEN = {}   # call site of an array::from_fn -> N
+
 HIGHER_ORDER = {"map", "for_each", "fold", "any", "all", "filter", "filter_map", "flat_map", "try_for_each",
                 "and_then", "unwrap_or_else", "ok_or_else", "map_err", "with_context", "find", "position",
                 "try_fold", "retain", "from_fn", "map_or", "map_or_else", "then", "sort_by", "sort_by_key",
@@ -479,7 +481,11 @@ class Frame:
             return self.elem(it[1], stamp)
         if tag in ("take", "skip") and isinstance(it[1], tuple) and it[1] and it[1][0] == "map":
             m = it[1]
-            return self.closure_ret(m[2], [self.elem((tag, m[1], it[2]), stamp)], site_hint=m[3] if len(m) > 3 else None)
+            r = self.closure_ret(m[2], [self.elem((tag, m[1], it[2]), stamp)], site_hint=m[3] if len(m) > 3 else None)
+            if tag == "take" and _generative(r, self._closure_path(m[2]), self.ev.prog.bodies):
+                # a prefix of a collected vector of fresh objects: still elements of that vector (see the `map` case above)
+                return ("elem", st(("take", ("gen", m), it[2])))
+            return r
         if tag in ("take", "skip") and isinstance(it[1], tuple) and it[1] and it[1][0] == "enumerate":
             return ("tuple", (("index", st(it)), self.elem((tag, it[1][1], it[2]), stamp)))
         if tag in ("take", "skip") and isinstance(it[1], tuple) and it[1] and it[1][0] == "zip":
@@ -601,6 +607,8 @@ class Frame:
                 return ("rng", site, args[0])
             if name in TRANSPARENT_NAMES and args:
                 return args[0]
+            if name == "from" and len(args) == 1 and (t.get("r") or "").startswith("<alloc::vec::Vec<T") and "From<[T; N]>" in (t.get("r") or ""):
+                return args[0]     # Vec::from([a, b, c]): the same elements in the same order
             if name == "size_of" and not args and t.get("ga"):
                 sz = {"u8": 1, "i8": 1, "bool": 1, "u16": 2, "i16": 2, "u32": 4, "i32": 4, "u64": 8, "i64": 8, "usize": 8, "isize": 8, "u128": 16, "i128": 16}.get(t["ga"][0])
                 if sz is not None:
@@ -639,6 +647,8 @@ class Frame:
             if name == "len" and args:
                 return ("len", args[0])
             if name == "from_fn" and args and f.startswith("core::array"):
+                if cga and isinstance(cga[-1], int):
+                    FROM_FN_LEN[site] = cga[-1]     # array::from_fn::<T, N, F>: the length is the const generic argument
                 return ("from_fn", args[0], site)
             if name == "fold" and len(args) == 3:
                 key = site + "#fold"
@@ -769,6 +779,9 @@ class Frame:
             out.append(e)
 
         self._collect(emit, ())
+        out = _split_chain_loops(out)
+        for k, e in enumerate(out):
+            e.order = k
         self._effects = out
         return out
 
@@ -829,7 +842,15 @@ class Frame:
                     k = "cb.zero" if sn == "cb.assert_zero" else "cb.one"
                     args = (args[0], args[1], ("call", site + "#" + k, k, (), (args[0],)))
                     sn = "cb.connect"
-                e = Effect(site, sn, cga, args, ctrl, loc, self, bb, t, res, 0)
+                ectrl = ctrl
+                if sn == "cb.connect_hashes" and len(args) == 3:
+                    # idiom table: connect_hashes(a, b) ≡ for i in 0..4 { connect(a.elements[i], b.elements[i]) }
+                    rng = ("rng", site + "#limbs", ("adt", "core::ops::range::Range", "Range", (("start", ("c", 0, None)), ("end", ("c", 4, None)))))
+                    el = ("elem", rng)
+                    args = (args[0], ("idx", ("fld", args[1], "elements"), el), ("idx", ("fld", args[2], "elements"), el))
+                    ectrl = ctrl + (("loop", rng, ("1",), bb, self.body.id),)
+                    sn = "cb.connect"
+                e = Effect(site, sn, cga, args, ectrl, loc, self, bb, t, res, 0)
                 self.ev.site_effect[site] = e
                 emit(e)
 
@@ -864,6 +885,48 @@ class Frame:
             # could be Option::map / Result::map as well as Iterator::map
             return [self.elem(recv)]
         return [self.elem(recv)]
+
+
+def _refold(t):
+    """re-apply the projections that fold on construction (field of a tuple) after a substitution"""
+    if not isinstance(t, tuple) or not t:
+        return t
+    t = tuple(_refold(x) if isinstance(x, tuple) else x for x in t)
+    if t[0] == "fld" and len(t) == 3 and isinstance(t[1], tuple) and t[1] and t[1][0] == "tuple":
+        try:
+            return t[1][1][int(t[2])]
+        except (ValueError, IndexError):
+            return t
+    return t
+
+
+def _split_chain_loops(effects):
+    """`for x in a.chain(b) { body }` runs the body over a, then over b: every effect under such a loop becomes two effects, one per
+    part, with the element terms rewritten (so a loop over `xs.zip(ys).chain(us.zip(vs))` is two zip loops for every rule)"""
+    out = []
+    for e in effects:
+        hit = None
+        for k, c in enumerate(e.ctrl):
+            if c[0] == "loop" and tuple(c[2]) == ("1",):
+                it = c[1]
+                core = it[2] if (isinstance(it, tuple) and len(it) == 3 and it[0] == "rng" and circ_range(it) is None) else it
+                if isinstance(core, tuple) and len(core) == 3 and core[0] == "chain":
+                    hit = (k, it, core)
+                    break
+        if hit is None:
+            out.append(e)
+            continue
+        k, it, core = hit
+        parts = []
+        for tag, part in (("#chain0", core[1]), ("#chain1", core[2])):
+            fr = e.frame
+            new_el = fr.elem(part) if fr is not None else ("elem", part)
+            rep = lambda t_: _refold(subst(t_, ("elem", it), new_el)) if isinstance(t_, tuple) else t_
+            ctrl2 = tuple(((c[0], part) + tuple(c[2:])) if j == k else tuple(rep(x) if isinstance(x, tuple) and j > k else x for x in c) for j, c in enumerate(e.ctrl))
+            e2 = Effect(e.site + tag, e.name, e.cga, tuple(rep(a) for a in e.args), ctrl2, e.loc, e.frame, e.bb, e.raw, rep(e.result) if isinstance(e.result, tuple) else e.result, 0)
+            parts.append(e2)
+        out += _split_chain_loops(parts)
+    return out
 
 
 def _generative(t, closure_path, bodies=None):
